@@ -588,20 +588,36 @@ func (dsc *dataStoreCommand) bitfieldWrite(keyName string, ops []*bitfieldOp) (o
 		if op.op == BF_GET {
 			results = append(results, n)
 		} else {
-			newValue := op.value
-			if op.op == BF_INCRBY {
-				newValue = n + newValue
+			// a write operation creates / zero-extends the string even when it fails
+			changed = true
+
+			// representable range of the field
+			var lo, hi int64
+			if op.signed {
+				hi = int64(uint64(1)<<(bits-1) - 1)
+				lo = -hi - 1
+			} else {
+				lo, hi = 0, int64(uint64(1)<<bits-1)
 			}
 
-			// detect underflow and overflow
-			var outOfBounds bool
-			if op.signed {
-				outOfBounds = isSignedSumOverflow(n, op.value, bits)
+			// detect underflow and overflow of the exact result: the value itself for SET,
+			// old value + increment for INCRBY (n is always within lo..hi)
+			newValue := op.value
+			over, under := false, false
+			if op.op == BF_INCRBY {
+				newValue = n + op.value // wraps modulo 2^64, which is what WRAP needs
+				if op.value > 0 {
+					over = uint64(hi)-uint64(n) < uint64(op.value)
+				} else if op.value < 0 {
+					under = uint64(n)-uint64(lo) < uint64(-op.value)
+				}
+			} else if op.signed {
+				over, under = op.value > hi, op.value < lo
 			} else {
-				// unsigned underflows when it goes negative
-				outOfBounds = newValue < 0 || isUnsignedOverflow(newValue, bits)
+				// a negative value is a huge unsigned number
+				over = op.value < 0 || op.value > hi
 			}
-			if outOfBounds {
+			if over || under {
 				switch op.oflow {
 				case OFLOW_WRAP:
 					newValue &= (1 << bits) - 1
@@ -609,7 +625,11 @@ func (dsc *dataStoreCommand) bitfieldWrite(keyName string, ops []*bitfieldOp) (o
 						newValue = signExtend(newValue, bits)
 					}
 				case OFLOW_SAT:
-					newValue = saturateValue(op.signed, newValue, bits)
+					if over {
+						newValue = hi
+					} else {
+						newValue = lo
+					}
 				case OFLOW_FAIL:
 					results = append(results, nil)
 					continue
